@@ -1,12 +1,16 @@
 """rand::rngs::StdRng: every draw is a fresh symbolic value (covers every seed and every sequence)."""
+import re
 import z3
 from .engine import *
 from .models import deref, d1, unguard
 
 class RngObj:
-    def __init__(self): self.draws = []
+    """seeded = created by from_seed / seed_from_u64: its draws are numbered per hooks['draws'] (a harness that re-runs a call sequence "with the same
+    seed" resets that counter and gets the same solver variables again).  Everything else (from_entropy, thread_rng, rand::random) draws from a
+    counter that is never reset: two runs see unrelated values."""
+    def __init__(self, seeded=True): self.draws = []; self.seeded = seeded
     def clone(self, e): return self
-    def __repr__(self): return 'StdRng'
+    def __repr__(self): return 'StdRng' if self.seeded else 'EntropyRng'
 
 LOCAL = {}
 def lmodel(*names):
@@ -19,24 +23,37 @@ def lmodel(*names):
 def new_rng_cell():
     return CellObj(RngObj(), 'refcell')
 
-@lmodel('SeedableRng::from_entropy', 'SeedableRng::from_seed', 'SeedableRng::seed_from_u64')
-def _from_entropy(e, c, a): return RngObj()
+@lmodel('SeedableRng::from_seed', 'SeedableRng::seed_from_u64')
+def _from_seed(e, c, a): return RngObj(True)
+@lmodel('SeedableRng::from_entropy', 'rand::thread_rng', 'thread_rng', 'rngs::OsRng')
+def _from_entropy(e, c, a): return RngObj(not e.hooks.get('entropy_is_unseeded', False))
+
+def _fresh(e, r, bool_):
+    if isinstance(r, RngObj) and not r.seeded:
+        k = e.hooks.get('entropy_draws', 0); e.hooks['entropy_draws'] = k + 1
+        v = z3.Bool('ecoin%d' % k) if bool_ else z3.BitVec('edraw%d' % k, 64)
+    else:
+        k = e.hooks.get('draws', 0); e.hooks['draws'] = k + 1
+        lim = e.hooks.get('max_draws')
+        if lim is not None and k >= lim: raise BoundExceeded('random draws')
+        v = z3.Bool('coin%d' % k) if bool_ else z3.BitVec('draw%d' % k, 64)
+    if isinstance(r, RngObj): r.draws.append(v)
+    return v
+
 @lmodel('RngCore::next_u64')
-def _next_u64(e, c, a):
-    r = unguard(a[0])
-    k = e.hooks.get('draws', 0); e.hooks['draws'] = k + 1
-    lim = e.hooks.get('max_draws')
-    if lim is not None and k >= lim: raise BoundExceeded('random draws')
-    v = z3.BitVec('draw%d' % k, 64)
-    r.draws.append(v)
-    return v
+def _next_u64(e, c, a): return _fresh(e, unguard(a[0]), False)
 @lmodel('Rng::gen_bool')
-def _gen_bool(e, c, a):
-    r = unguard(a[0])
-    k = e.hooks.get('draws', 0); e.hooks['draws'] = k + 1
-    v = z3.Bool('coin%d' % k)
-    r.draws.append(v)
-    return v
+def _gen_bool(e, c, a): return _fresh(e, unguard(a[0]), True)
+@lmodel('rand::random', 'random')
+def _random(e, c, a):
+    # the thread-local generator: never governed by a seed the caller set
+    r = RngObj(False)
+    if re.search(r'random::<bool>', c): return _fresh(e, r, True)
+    m = re.search(r'random::<(u8|u16|u32|u64|usize|i8|i16|i32|i64|isize)>', c)
+    if not m: raise Unsupported('rand::random of type %s' % c)
+    v = _fresh(e, r, False)
+    w = INT_TYPES[m.group(1)][0]
+    return v if w == 64 else z3.Extract(w - 1, 0, v)
 
 def install(e):
     e.models.update(LOCAL)
